@@ -21,6 +21,7 @@ class Env:
         self.signs = dict(signs or {})
         self.monos = dict(monos or {})
         self.blocked = []  # atoms whose unknown sign prevented a verdict
+        self.wraps = []    # subscripts of a sorted sequence whose index may be 0 or negative (negative indexing wraps at 0)
 
     def sign_of(self, a):
         return self.signs.get(a)
@@ -302,6 +303,55 @@ def atom_mono(a, p, env):
         return _join([mono(a[2], p, env), mono(a[3], p, env)])
     if k == "sub":
         if depends(a[2], p):
+            # order statistic: element of an ascending sequence at an index that depends on p
+            if not depends(a[1], p) and _ascending(a[1]):
+                mi = mono(a[2], p, env)
+                if mi is None:
+                    return None
+                si = sign(a[2], env)
+                if si in (0, 1) or (si == -1 and strictly_negative(a[2], env)):
+                    return mi
+                if si == -1:
+                    # the index ranges over {0, -1, -2, ...}: -0 is the FIRST element, -1 the last - not monotone
+                    if a not in env.wraps:
+                        env.wraps.append(a)
             return None
         return mono(a[1], p, env)
     return None
+
+
+def _ascending(t):
+    a = t.single_atom()
+    if a is None or a[0] != "call":
+        return False
+    kw = dict(a[3])
+    if a[1] == "numpy.sort":
+        return True
+    if a[1] in ("sorted", "builtins.sorted"):
+        return kw.get("reverse") in (None, T.FALSE)
+    return False
+
+
+def strictly_positive(t, env):
+    if not isinstance(t, R):
+        return False
+    if t.is_const():
+        return t.const_value() > 0
+    a = t.single_atom()
+    if a is not None and a[0] == "call" and a[1] == "max":
+        return any(strictly_positive(x, env) for x in a[2])
+    if a is not None and a[0] == "call" and a[1] in ("len",):
+        return False
+    tr = t.tree
+    if tr is not None and tr[0] == "add":
+        return (strictly_positive(tr[1], env) and sign(tr[2], env) in (0, 1)) or (strictly_positive(tr[2], env) and sign(tr[1], env) in (0, 1))
+    # x + c with c > 0 and x >= 0, on the normal form
+    c0 = sum((cf for m, cf in t.num if m == ()), Fraction(0)) if t.den == (((), Fraction(1)),) else None
+    if c0 is not None and c0 > 0:
+        rest = t - T.const(c0)
+        return sign(rest, env) in (0, 1)
+    return False
+
+
+def strictly_negative(t, env):
+    return strictly_positive(-t, env)
